@@ -2,6 +2,14 @@
 # Regenerates MANIFEST.json from the table below (kept in one place so the manifest stays valid).
 import json, subprocess
 CLAIMED = {
+ "C13": dict(
+   text="Wire-validity contracts on the real frame assemblers: the bytes flushFrame hands to the transport start with an RFC 6455 5.2 header for (FIN, RSV1 only when this frame opens a compressed message, RSV2/3 clear, opcode or continuation, mask bit iff client, the shortest length form incl. the 125/126 and 65535/65536 boundaries, 64-bit lengths below 2^63), of the right total length; control frames are final and at most 125 bytes; after a non-final frame the writer continues with continuation frames and RSV1 cleared; WriteControl emits exactly one whole control frame with the right first two bytes.",
+   note="PARTIAL (as designed): end-to-end delivery of every message through compress/flate, bufio, net and all write APIs, and the opening handshake, are not decidable by per-function contracts here and are not claimed. maskBytes (unsafe) is a trusted contract. Trusted: net.Conn write stream contract, govc, go/ssa, solvers.",
+   design="7/C13"),
+ "C15": dict(
+   text="Ghost lock-set discipline on the real writer: the write lock is a 1-slot channel modelled as a mutex; every transport write (conn.Write) happens with it held (guarded obligation at each call), it is released on every path of write/WriteControl/flushFrame (including timeouts and errors), nothing is written once the close-sent latch is set and the latch error is returned, a successful Close sets the latch before the lock is released, and the latch is monotone (first error wins).",
+   note="The verifier is sequential: 'frames never interleave under any schedule' follows from these obligations by the mutual-exclusion argument of DESIGN 2.4 (stated, not machine-checked). The best-effort isWriting flag and data races on other fields are not decided. Trusted: channel-as-mutex and net.Conn models, govc, go/ssa, solvers.",
+   design="7/C15"),
  "C14": dict(
    text="Contracts on the real advanceFrame against RFC 6455 5.2-5.5 rule predicates over the ghost input stream: an accepted frame has legal RSV bits and a known opcode, control frames are final and declare at most 125 bytes, data/continuation sequencing follows the message-in-progress flag, the mask bit matches the role, the remaining-bytes counter equals the declared length and is never negative (64-bit lengths with the top bit set are refused), the message length accumulates over fragments without overflow and never passes a configured read limit; every protocol error sends Close 1002 (call-site assertion on WriteControl) and returns an error; the received-close-code table is checked against RFC 7.4.1 for all codes.",
    note="ASSUMED: user-supplied ping/pong/close handlers do not modify reader state; writes through a slice of the mask-key array field are not tracked; maskBytes (unsafe) and WriteControl are trusted contracts here. Sticky errors in NextReader and the no-short-message-on-cut clause of messageReader.Read are not under contract. Trusted: bufio.Reader Peek/Discard stream contracts, govc, go/ssa, solvers.",
